@@ -163,18 +163,68 @@ def run_unit(path, scratch, mutate=None, extra_name=''):
         res.seconds = time.time() - t0
         return res
     objbits = int(u.get('objbits', '0') or 0)
-    while True:
-        cmd = ['cbmc', binary, '--json-ui'] + checks_flags(u)
-        if objbits:
-            cmd += ['--object-bits', str(objbits)]
-        rc, out, err, dt = _run(cmd, timeout, workdir, res.cmds)
+    base = ['cbmc', binary, '--json-ui'] + checks_flags(u)
+    # list the properties first: the REACH guards (which must fail) and the advisory pointer-arithmetic checks are run
+    # apart from the obligations, so that their failures do not leave obligations UNKNOWN and both runs go in parallel
+    rcp, outp, errp, dtp = _run(base + ['--show-properties'], timeout, workdir, res.cmds)
+    plist = []
+    try:
+        for item in json.loads(outp):
+            if 'properties' in item:
+                plist = item['properties']
+    except ValueError:
+        plist = []
+    side = [p_['name'] for p_ in plist if p_.get('description', '').startswith('REACH:') or ADVISORY_RX.search(p_.get('description', ''))]
+    main = [p_['name'] for p_ in plist if p_['name'] not in set(side)]
+
+    def run_group(names):
+        ob = objbits
+        while True:
+            cmd_ = list(base)
+            if ob:
+                cmd_ += ['--object-bits', str(ob)]
+            for n_ in names:
+                cmd_ += ['--property', n_]
+            rc_, out_, err_, dt_ = _run(cmd_, timeout, workdir, res.cmds)
+            if 'too many addressed objects' in out_ and (ob or 8) < 12:
+                ob = (ob or 8) + 2      # default is 8; raise only when CBMC asks for it (cost grows with it)
+                continue
+            return rc_, out_, err_, dt_, ob, cmd_
+    if plist and side and main:
+        import concurrent.futures as _cf
+        with _cf.ThreadPoolExecutor(max_workers=2) as ex_:
+            fa = ex_.submit(run_group, main)
+            fb = ex_.submit(run_group, side)
+            rc, out, err, dt, objbits, cmd = fa.result()
+            rcb, outb, errb, dtb, _, _ = fb.result()
+        res.solver_seconds += dt + dtb
+        if rcb == -9:
+            rc = -9
+        else:
+            ra, va, ma = parse_json(out)
+            rb, vb, mb = parse_json(outb)
+            if ra is not None and rb is not None:
+                out = json.dumps([{'result': ra + rb}, {'cProverStatus': va}] + [{'messageText': x} for x in ma + mb])
+            elif rb is None:
+                out = outb
+    else:
+        rc, out, err, dt, objbits, cmd = run_group([])
         res.solver_seconds += dt
-        if 'too many addressed objects' in out and (objbits or 8) < 12:
-            objbits = (objbits or 8) + 2      # default is 8; raise only when CBMC asks for it (cost grows with it)
-            continue
-        break
     if objbits:
         u.hdr['objbits'] = str(objbits)
+    cmd = [c for c in cmd]
+    # strip the --property selection so that follow-up runs can add their own
+    cmd_clean = []
+    skip = False
+    for c in cmd:
+        if skip:
+            skip = False
+            continue
+        if c == '--property':
+            skip = True
+            continue
+        cmd_clean.append(c)
+    cmd = cmd_clean
     with open(os.path.join(workdir, 'cbmc.json'), 'w') as f:
         f.write(out)
     if rc == -9:
@@ -262,7 +312,7 @@ def run_unit(path, scratch, mutate=None, extra_name=''):
     elif res.failed:
         res.status = 'fail'
     elif res.structure_failed:
-        res.reason = 'proof-structure obligations fail (%s) with no property-carrying failure: invariant no longer fits the code' % ', '.join(o['id'] for o in res.structure_failed[:3])
+        res.reason = 'proof-structure obligations fail (%s) with no property-carrying failure: invariant no longer fits the code' % ', '.join('%s [%s]' % (o['id'], o['text'][:90]) for o in res.structure_failed[:4])
     else:
         res.status = 'ok'
     return res
